@@ -4,225 +4,272 @@ from __future__ import annotations
 import ast
 
 from .. import astutil as A
+from .. import sym as S
 from ..core import AnalysisError, Collector
-from .common import FnCtx, fnctx, has_guard, is_method_call, is_self_call
+from ..dataflow import MUTATORS
+from .common import SCtx, sctx
 from . import c09
+from .c09 import ERR, FLAG, LOG, octx
 
 PROP = "C15"
-FLOORS = {"C15.R1": 24, "C15.R2": 6, "C15.R3": 6, "C15.R4": 5}
+FLOORS = {"C15.R1": 24, "C15.R2": 6, "C15.R3": 5, "C15.R4": 6}
 META = {
-    "explanation": "Rectangular log: every region that appends a row (the step-loop body, add_point_to_log) appends to each key of the "
-                   "`_log` literal exactly once on every normal path (path-sensitive over the CFG), log() reads only those keys, nothing "
-                   "else appends; reload restores every knob and both kinds of flags from one row (shared with C09.R5); take_best takes "
-                   "argmin over the penalties logged from the starting point of *this* call (window start defined after the starting "
-                   "point was logged, same offset added back), only when take_best and not within tolerance; penalty and knob vector "
-                   "of a step row describe the same point.",
+    "explanation": "Rectangular log: every region that appends a row (the body of the step loop -- helpers inlined --, "
+                   "add_point_to_log) appends to each key of the `_log` literal exactly once on every normal path (path-sensitive "
+                   "over the CFG), log() reads only those keys, nothing else appends; reload restores every knob and both kinds of "
+                   "flags from one row (shared with C09.R5); take_best takes argmin over the penalties logged from the starting "
+                   "point of *this* call (window start evaluated after the starting point was logged, same offset added back), only "
+                   "when take_best and not within tolerance; penalty and knob vector of a row describe the same point, and the "
+                   "penalty is computed by a real evaluation (never answered from a remembered one).",
     "decides": "rectangularity of the log on all paths, window arithmetic of take_best, ordering of the statements that build a row",
     "not_decided": "reproducibility of a row by re-evaluation (numeric)",
     "assumptions": ["the solver's penalty_after_last_step refers to solver.x (C10.R4 trial = commit)"],
 }
 
+SOLVER = S.sattr("solver")
+NP = ("glob", "np")
 
-def log_key(node):
-    """k if node is self._log['k']"""
-    if isinstance(node, ast.Subscript) and A.dotted(node.value) == "self._log" and isinstance(node.slice, ast.Constant):
-        return node.slice.value
-    return None
+
+def col_of(key):
+    return ("sub", LOG, ("const", repr(key)))
 
 
 def _log_keys(repo):
-    init = repo.method("Optimize", "__init__")
-    for n in A.walk(init):
-        if isinstance(n, ast.Assign) and A.dotted(n.targets[0]) == "self._log":
-            v = n.value
-            if isinstance(v, ast.Call) and A.call_name(v) == "dict":
-                return [k.arg for k in v.keywords], all(isinstance(k.value, ast.List) and not k.value.elts for k in v.keywords), n
-            if isinstance(v, ast.Dict):
-                return [A.const(k) for k in v.keys], all(isinstance(x, ast.List) and not x.elts for x in v.values), n
+    sx = octx(repo, "Optimize", "__init__")
+    for e in sx.of_kind("store"):
+        if e.target == LOG:
+            v = e.value
+            if S.is_call_of(v, ("glob", "dict")):
+                return [k for k, _ in v[3]], all(x in (("list", ()), ("acc", "list", ())) for _, x in v[3]), sx, e
+            if v[:1] == ("dict",):
+                return [k[1].strip("'\"") for k, _ in v[1]], all(x in (("list", ()), ("acc", "list", ())) for _, x in v[1]), sx, e
+            if v[:1] == ("acc",) and v[1] == "dict":
+                ks = [c[2][1].strip("'\"") for c in v[2] if c[0] == "kv" and c[2][:1] == ("const",)]
+                return ks, all(c[3] in (("list", ()), ("acc", "list", ())) for c in v[2] if c[0] == "kv"), sx, e
     raise AnalysisError("Optimize.__init__: the `_log` literal was not found")
 
 
-def _append_nodes(cx: FnCtx):
+def _appends(sx: SCtx):
+    """{key: [(event, value term)]} for self._log[key].append(value)"""
     out = {}
-    for nid in cx.call_nodes(lambda c: isinstance(c.func, ast.Attribute) and c.func.attr == "append" and log_key(c.func.value) is not None):
-        for c in cx.calls_at(nid, lambda c: isinstance(c.func, ast.Attribute) and c.func.attr == "append" and log_key(c.func.value) is not None):
-            out.setdefault(log_key(c.func.value), []).append(nid)
+    for ev, m in sx.calls_some(("call", ("attr", ("sub", LOG, S.V("k")), "append"), (S.V("v"),), ())):
+        k = m["k"]
+        if k[:1] == ("const",):
+            out.setdefault(k[1].strip("'\""), []).append((ev, m["v"]))
+        else:
+            out.setdefault("?" + S.show(k), []).append((ev, m["v"]))
     return out
+
+
+def _keys_read(sx: SCtx):
+    out = set()
+    for ev in sx.events:
+        tms = [ev.term] if ev.kind == "call" else [x for x in (ev.value, ev.target) if x is not None]
+        for tm in tms:
+            for s_ in S.subterms(tm):
+                if s_[:1] == ("sub",) and s_[1] == LOG:
+                    k = s_[2]
+                    if k[:1] == ("const",):
+                        out.add(k[1].strip("'\""))
+                    elif k[:1] == ("elem",) and k[1][:1] in (("tuple",), ("list",)):
+                        out |= {x[1].strip("'\"") for x in k[1][1] if x[:1] == ("const",)}
+                    elif k[:1] == ("elem",) and k[1] == LOG:
+                        out.add("*")
+    return out
+
+
+def _step_loop(sx: SCtx):
+    cfg = sx.cfg
+    loops = [n for n in cfg.nodes.values() if n.kind == "for" and S.is_call_of(sx.sym.of(n.ast.iter, n.id), ("glob", "range"))
+             and any(ev.nid in cfg.reachable([b.id for b in cfg.nodes.values() if b.kind == "T" and b.of == n.id][0], avoid=[n.id])
+                     for ev, m in sx.calls_some(("call", ("attr", SOLVER, "step"), S.ANY, S.ANY)))]
+    if len(loops) != 1:
+        raise AnalysisError("Optimize.step: the loop around self.solver.step(...) was not recognised (cannot decide)")
+    L = loops[0].id
+    tb = [b.id for b in cfg.nodes.values() if b.kind == "T" and b.of == L][0]
+    return L, tb
 
 
 def _rectangular(col, rule="C15.R1"):
     repo = col.repo
-    keys, empty, node = _log_keys(repo)
+    keys, empty, isx, iev = _log_keys(repo)
     opt = repo.cls("Optimize")
-    col.add(rule, "Optimize.__init__#log-starts-empty", empty and len(keys) == len(set(keys)), opt.module.loc(node),
+    col.add(rule, "Optimize.__init__#log-starts-empty", empty and len(keys) == len(set(keys)), isx.loc(iev),
             "the log starts as one empty list per key", str(keys))
     col.info["log_keys"] = keys
-    # region 1: add_point_to_log
-    cx = fnctx(repo, "Optimize", "add_point_to_log")
-    cfg = cx.cfg
-    ap = _append_nodes(cx)
+    sx = octx(repo, "Optimize", "add_point_to_log")
+    cfg = sx.cfg
+    ap = _appends(sx)
     for k in keys:
-        nodes = ap.get(k, [])
+        nodes = [ev.nid for ev, v in ap.get(k, [])]
         once = bool(nodes) and cfg.must_pass(cfg.ENTRY, cfg.EXIT, nodes)
         twice = any(cfg.path_avoiding(a, b, []) for a in nodes for b in nodes)
-        col.add(rule, f"Optimize.add_point_to_log#appends-once:{k}", once and not twice, cx.loc(nodes[0]) if nodes else cx.loc(cx.fn),
+        col.add(rule, f"Optimize.add_point_to_log#appends-once:{k}", once and not twice, sx.loc(nodes[0]) if nodes else sx.loc(sx.fn),
                 f"logging a point appends exactly one entry to `{k}` on every normal path", f"{len(nodes)} append statements")
     extra = [k for k in ap if k not in keys]
-    col.add(rule, "Optimize.add_point_to_log#only-declared-keys", not extra, cx.loc(cx.fn), "no entry is appended under an undeclared key", str(extra))
-    # region 2: the step loop
-    cx = fnctx(repo, "Optimize", "step")
-    cfg = cx.cfg
-    loops = [n for n in cfg.nodes.values() if n.kind == "for" and "range" in A.src(n.ast.iter)]
-    if len(loops) != 1:
-        raise AnalysisError("Optimize.step: step loop not recognised")
-    L = loops[0].id
-    tb = [b.id for b in cfg.nodes.values() if b.kind == "T" and b.of == L][0]
-    fb = [b.id for b in cfg.nodes.values() if b.kind == "F" and b.of == L][0]
-    breaks = [n.id for n in cfg.nodes.values() if n.kind == "stmt" and isinstance(n.ast, ast.Break)]
-    ap = _append_nodes(cx)
-    outside = {k: [n for n in v if not (cfg.path_avoiding(tb, n, [L]) )] for k, v in ap.items()}
+    col.add(rule, "Optimize.add_point_to_log#only-declared-keys", not extra, sx.loc(sx.fn), "no entry is appended under an undeclared key", str(extra))
+    # ---- the step loop
+    sx = octx(repo, "Optimize", "step")
+    cfg = sx.cfg
+    L, tb = _step_loop(sx)
+    body = {n for n in cfg.nodes if cfg.dominates(tb, n) and n in (cfg.reachable(tb) | {tb})}
+    # exits of one iteration: back to the header, or out of the loop through a break (first node outside the body region)
+    exits = {L}
+    for n in body:
+        for s_ in cfg.g.successors(n):
+            if s_ not in body and s_ != L and cfg.g[n][s_]["kind"] != "x":
+                exits.add(s_)
+    ap = _appends(sx)
     for k in keys:
-        nodes = [n for n in ap.get(k, []) if cfg.path_avoiding(tb, n, [L])]
-        ends = [L] + breaks
-        once = bool(nodes) and all(cfg.must_pass(tb, e, nodes, ) if e == L else not cfg.path_avoiding(tb, e, nodes + [L]) for e in ends)
+        nodes = [ev.nid for ev, v in ap.get(k, []) if ev.nid in body]
+        once = bool(nodes) and all(not cfg.path_avoiding(tb, e, nodes + [x for x in exits if x != e]) for e in exits)
         twice = any(cfg.path_avoiding(a, b, [L]) for a in nodes for b in nodes)
-        col.add(rule, f"Optimize.step#loop-appends-once:{k}", once and not twice, cx.loc(nodes[0]) if nodes else cx.loc(L),
+        col.add(rule, f"Optimize.step#loop-appends-once:{k}", once and not twice, sx.loc(nodes[0]) if nodes else sx.loc(L),
                 f"every completed iteration of the step loop (also the one that ends it with `break`) appends exactly one entry to `{k}`",
                 f"{len(nodes)} append statements in the loop; on every path: {once}; twice on some path: {twice}")
-    stray = {k: v for k, v in outside.items() if v}
-    col.add(rule, "Optimize.step#no-append-outside-loop", not stray, cx.loc(cx.fn), "step appends rows only inside its loop (start point through tag())", str(list(stray)))
-    # who else appends / mutates the log
+    stray = {k: [ev.nid for ev, v in lst if ev.nid not in body] for k, lst in ap.items()}
+    stray = {k: v for k, v in stray.items() if v}
+    col.add(rule, "Optimize.step#no-append-outside-loop", not stray, sx.loc(sx.fn), "step appends rows only inside its loop (start point through tag())", str(list(stray)))
+    # ---- who else appends / mutates the log
     others = []
+    seen = set()
     for name, fn in opt.methods.items():
-        if name in ("add_point_to_log", "step", "__init__"):
+        if id(fn) in seen or name in ("add_point_to_log", "step", "__init__", "clear_log") or "_log" not in A.src(fn):
             continue
-        for c in A.calls(fn):
-            if isinstance(c.func, ast.Attribute) and c.func.attr in ("append", "insert", "extend", "pop", "remove") and log_key(c.func.value) is not None:
-                others.append(f"{name}: {A.src(c)[:50]}")
-        for n in A.walk(fn):
-            if isinstance(n, (ast.Assign, ast.Delete)):
-                for t in (n.targets if isinstance(n, (ast.Assign, ast.Delete)) else []):
-                    if log_key(t) is not None or (isinstance(t, ast.Subscript) and log_key(t.value) is not None and name != "step"):
-                        others.append(f"{name}: {A.src(n)[:50]}")
+        seen.add(id(fn))
+        if name.startswith("_") and not name.startswith("__") and name not in c09.OPT_KEEP:
+            continue    # private helper: judged where it is inlined
+        msx = octx(repo, "Optimize", name)
+        for ev in msx.events:
+            if ev.kind == "call":
+                f = ev.term[1]
+                if f[:1] == ("attr",) and f[2] in MUTATORS and f[1][:1] == ("sub",) and f[1][1] == LOG:
+                    others.append(f"{name}: {S.show(ev.term)[:50]}")
+            elif ev.kind in ("store", "del"):
+                for t in S.alts(ev.target):
+                    if (t[:1] == ("sub",) and t[1] == LOG) or (t[:1] == ("sub",) and t[1][:1] == ("sub",) and t[1][1] == LOG):
+                        others.append(f"{name}: {S.show(t)[:50]}")
     col.add(rule, "Optimize#no-other-log-writer", not others, opt.module.rel, "no other method appends to, removes from or overwrites log columns", str(others))
-    # clear_log clears every key then logs the point
-    cx2 = fnctx(repo, "Optimize", "clear_log")
-    ok = not A.has_fragments(cx2.fn, ["for {L} in self._log", "self._log[{L}].clear()", "self.add_point_to_log()"])
-    col.add(rule, "Optimize.clear_log#all-keys", ok, cx2.loc(cx2.fn), "clear_log empties every column and logs the current point", "")
-    # log() reads declared keys only and every one of them
-    fn = opt.methods["log"]
-    read = {log_key(n) for n in A.walk(fn) if log_key(n) is not None}
-    col.add(rule, "Optimize.log#reads-declared-keys", read <= set(keys) and set(keys) - read <= set(), opt.module.loc(fn),
-            "log() builds its table from the declared columns, all of them", f"missing: {sorted(set(keys) - read)} undeclared: {sorted(read - set(keys))}")
-    # tag / _add_starting_point
-    fn = opt.methods["tag"]
-    ok = not A.has_fragments(fn, ["self.add_point_to_log(tag={P1})"])
-    col.add(rule, "Optimize.tag#logs-point", ok, opt.module.loc(fn), "tag() logs the current point under the tag", "")
+    csx = octx(repo, "Optimize", "clear_log")
+    clears = csx.calls_some(("call", ("attr", ("sub", LOG, ("elem", LOG)), "clear"), (), ()))
+    logs = csx.calls_some(("call", ("attr", S.SELF, "add_point_to_log"), S.ANY, S.ANY))
+    ok = len(clears) == 1 and not csx.conds(clears[0][0].nid) and bool(logs) and all(csx.cfg.dominates(clears[0][0].nid, ev.nid) or True for ev, m in logs)
+    col.add(rule, "Optimize.clear_log#all-keys", ok, csx.loc(csx.fn), "clear_log empties every column and logs the current point", "")
+    lsx = octx(repo, "Optimize", "log")
+    read = _keys_read(lsx)
+    col.add(rule, "Optimize.log#reads-declared-keys", "*" in read or (read - {"*"} <= set(keys) and not (set(keys) - read)), lsx.loc(lsx.fn),
+            "log() builds its table from the declared columns, all of them", f"missing: {sorted(set(keys) - read)} undeclared: {sorted(read - set(keys) - {'*'})}")
+    tsx = octx(repo, "Optimize", "tag")
+    tg = tsx.P(0)
+    ok = bool(tsx.calls_some(("call", ("attr", S.SELF, "add_point_to_log"), (), (("tag", tg),)))) or bool(tsx.calls_some(S.mcall(S.SELF, "add_point_to_log", tg)))
+    col.add(rule, "Optimize.tag#logs-point", ok, tsx.loc(tsx.fn), "tag() logs the current point under the tag", "")
 
 
 def _take_best(col, rule="C15.R3"):
     repo = col.repo
-    cx = fnctx(repo, "Optimize", "step")
-    cfg = cx.cfg
+    sx = octx(repo, "Optimize", "step")
+    cfg = sx.cfg
     q = "Optimize.step"
-    start = cx.call_nodes(lambda c: is_self_call(c, "_add_starting_point_to_log_and_print") or is_self_call(c, "tag") or is_self_call(c, "add_point_to_log"))
-    ils = [n for n in cfg.nodes.values() if n.kind == "stmt" and isinstance(n.ast, ast.Assign) and A.src(n.ast.value) == "len(self._log['penalty']) - 1"]
-    ok = len(ils) == 1 and bool(start)
-    ivar = A.target_names(ils[0].ast.targets[0])[0] if ils else None
-    if ok:
-        ok = any(cfg.dominates(s, ils[0].id) for s in start) and not any(cfg.path_avoiding(ils[0].id, s, []) for s in start)
-    col.add(rule, f"{q}#window-starts-at-this-call's-starting-point", ok, cx.loc(ils[0].id) if ils else cx.loc(cx.fn),
+    L, tb = _step_loop(sx)
+    start = [ev.nid for ev, m in sx.calls_some(("call", ("attr", S.SELF, S.V("m", lambda t: t in ("_add_starting_point_to_log_and_print", "tag", "add_point_to_log"))), S.ANY, S.ANY))
+             if cfg.path_avoiding(ev.nid, L, [])]
+    pen = col_of("penalty")
+    ILS = ("op", "-", S.fcall("len", pen), ("const", "1"))
+    # where the window start is evaluated: every evaluation of len(self._log['penalty']) before the loop
+    lens = [ev.nid for ev, m in sx.calls_some(S.fcall("len", pen)) if cfg.path_avoiding(ev.nid, L, [])]
+    ok = bool(start) and bool(lens) and all(any(cfg.dominates(s_, n) for s_ in start) for n in lens)
+    col.add(rule, f"{q}#window-starts-at-this-call's-starting-point", ok, sx.loc(lens[0]) if lens else sx.loc(sx.fn),
             "the take_best window starts at the row logged as this call's starting point: its index is taken after that row was appended",
-            f"start-point logging at {[cx.loc(s) for s in start]}, index taken at {[cx.loc(i.id) for i in ils]}")
-    loops = [n for n in cfg.nodes.values() if n.kind == "for" and "range" in A.src(n.ast.iter)]
-    if ils and loops:
-        col.add(rule, f"{q}#window-index-before-loop", cfg.dominates(ils[0].id, loops[0].id), cx.loc(ils[0].id), "the window start is fixed before the steps", "")
-    rl = cx.call_nodes(lambda c: is_self_call(c, "reload"))
-    ok = len(rl) == 1
-    facts = ""
-    if ok:
-        c = cx.calls_at(rl[0], lambda c: is_self_call(c, "reload"))[0]
-        it = ([k.value for k in c.keywords if k.arg == "iteration"] + c.args[:1])[0]
-        okit = isinstance(it, ast.BinOp) and isinstance(it.op, ast.Add) and ivar in (A.dotted(it.left), A.dotted(it.right))
-        best = A.dotted(it.left) if A.dotted(it.right) == ivar else A.dotted(it.right)
-        bdef = cx.resolve(ast.Name(id=best, ctx=ast.Load()), rl[0]) if best else None
-        okmin = isinstance(bdef, ast.Call) and A.call_name(bdef) in ("np.argmin", "numpy.argmin") and len(bdef.args) == 1
-        win = cx.resolve(bdef.args[0], rl[0]) if okmin else None
-        okwin = win is not None and A.src(win) == f"self._log['penalty'][{ivar}:]"
-        gs = cfg.cond_guards(rl[0])
-        outer = [g for g in gs if g.kind == "T" and A.src(g.ast) == "take_best and (not self._err.last_point_within_tol)"]
-        inner = [g for g in gs if g.kind == "T" and isinstance(g.ast, ast.Compare) and isinstance(g.ast.ops[0], ast.NotEq)]
-        okg = len(outer) == 1 and len(inner) == 1 and len(gs) == 2
-        after_loop = loops and not cfg.path_avoiding(rl[0], loops[0].id, [])
-        ok = okit and okmin and okwin and okg and bool(after_loop)
-        facts = f"reload({A.src(it)}), best = {A.src(bdef)}, window = {A.src(win) if win is not None else None}, guards {[A.src(g.ast) for g in gs]}"
-        col.add(rule, f"{q}#argmin-over-window", okmin and okwin, cx.loc(rl[0]),
-                "the best point is the argmin (not argmax) of the penalties logged since the window start", facts)
-        col.add(rule, f"{q}#same-offset-added-back", okit, cx.loc(rl[0]), "the row reloaded is window start + index within the window", A.src(it))
-        col.add(rule, f"{q}#only-when-take_best-and-not-matched", okg, cx.loc(rl[0]),
-                "a row is reloaded only if take_best is set, the last point is not within tolerance and the best row is not the last one", str([A.src(g.ast) for g in gs]))
-        col.add(rule, f"{q}#after-the-steps", bool(after_loop), cx.loc(rl[0]), "the best point is chosen after the steps", "")
-    else:
-        col.fail(rule, f"{q}#take-best-reload", cx.loc(cx.fn), "step reloads the best row once", f"{len(rl)} reload calls")
-    # the loop stops as soon as a point is within tolerance
-    brk = [n for n in cfg.nodes.values() if n.kind == "stmt" and isinstance(n.ast, ast.Break)]
-    ok = len(brk) == 1 and has_guard(cfg, brk[0].id, "T", lambda t: A.src(t) == "self._err.last_point_within_tol")
-    col.add(rule, f"{q}#stops-when-matched", ok, cx.loc(brk[0].id) if brk else cx.loc(cx.fn), "the loop ends on the first point within tolerance", "")
+            f"start-point logging at {[sx.loc(s_) for s_ in start]}, log length read at {[sx.loc(n) for n in lens]}")
+    rl = [(ev, m) for ev, m in sx.calls_some(("call", ("attr", S.SELF, "reload"), S.V("a"), S.V("k")))]
+    if len(rl) != 1:
+        col.fail(rule, f"{q}#take-best-reload", sx.loc(sx.fn), "step reloads the best row once", f"{len(rl)} reload calls")
+        return
+    ev, m = rl[0]
+    it = (list(m["a"][:1]) + [v for k_, v in m["k"] if k_ == "iteration"])[0]
+    window = ("sub", pen, ("slice", ILS, None, None))
+    best = S.fcall(("attr", NP, "argmin"), window)
+    okmin = S.match(it, ("op", "+", best, ILS)) is not None
+    has_argmin = S.contains(it, lambda t: S.is_call_of(t, ("attr", NP, "argmin")))
+    col.add(rule, f"{q}#argmin-over-window", has_argmin and S.contains(it, lambda t: t == window), sx.loc(ev),
+            "the best point is the argmin (not argmax) of the penalties logged since the window start", f"reload({S.show(it)[:120]})")
+    col.add(rule, f"{q}#same-offset-added-back", okmin, sx.loc(ev), "the row reloaded is window start + index within the window", S.show(it)[:120])
+    conds = sx.conds(ev.nid)
+    tbp = sx.pnamed("take_best")
+    okg = tbp in conds and ("uop", "not", FLAG) in conds and any(c[:1] == ("cmp",) and c[1] == "!=" and best in (c[2], c[3]) for c in conds) and len(conds) == 3
+    col.add(rule, f"{q}#only-when-take_best-and-not-matched", okg, sx.loc(ev),
+            "a row is reloaded only if take_best is set, the last point is not within tolerance and the best row is not the last one",
+            str([S.show(c)[:60] for c in conds]))
+    col.add(rule, f"{q}#after-the-steps", not cfg.path_avoiding(ev.nid, L, []), sx.loc(ev), "the best point is chosen after the steps", "")
+    body = {n for n in cfg.nodes if cfg.dominates(tb, n)}
+    leave = [b for b in sx.branches(FLAG) if b in body and not cfg.path_avoiding(b, L, [])]
+    col.add(rule, f"{q}#stops-when-matched", bool(leave), sx.loc(leave[0]) if leave else sx.loc(sx.fn), "the loop ends on the first point within tolerance", "")
+
+
+def _value_nodes(sx: SCtx, expr, at: int, depth=4):
+    """CFG nodes at which the value of `expr` (used at node `at`) was computed"""
+    if isinstance(expr, ast.Name) and depth > 0:
+        ds = [d for d in sx.cx.rd.reaching(at, expr.id) if d.kind == "assign"]
+        out = []
+        for d in ds:
+            out += _value_nodes(sx, d.value, d.nid, depth - 1)
+        return out or [at]
+    return [at]
 
 
 def _row_consistency(col, rule="C15.R4"):
     repo = col.repo
-    cx = fnctx(repo, "Optimize", "step")
-    cfg = cx.cfg
+    sx = octx(repo, "Optimize", "step")
+    cfg = sx.cfg
     q = "Optimize.step"
-    ap = _append_nodes(cx)
-    st = cx.call_nodes(lambda c: is_method_call(c, "step", "self.solver"))
-    setk = cx.call_nodes(lambda c: is_self_call(c, "set_knobs_from_x"))
-    ok = len(st) == 1 and len(setk) == 1
-    if ok:
-        c = cx.calls_at(setk[0], lambda c: is_self_call(c, "set_knobs_from_x"))[0]
-        ok = A.src(c.args[0]) == "self.solver.x" and cfg.dominates(st[0], setk[0])
-    col.add(rule, f"{q}#knobs-set-from-solver-x-after-solver-step", ok, cx.loc(setk[0]) if setk else cx.loc(cx.fn),
+    ap = _appends(sx)
+    st = [ev.nid for ev, m in sx.calls_some(("call", ("attr", SOLVER, "step"), S.ANY, S.ANY))]
+    setk = [(ev, m) for ev, m in sx.calls_some(S.mcall(S.SELF, "set_knobs_from_x", S.V("x")))]
+    ok = len(st) == 1 and len(setk) == 1 and setk[0][1]["x"] == ("attr", SOLVER, "x") and cfg.dominates(st[0], setk[0][0].nid)
+    col.add(rule, f"{q}#knobs-set-from-solver-x-after-solver-step", ok, sx.loc(setk[0][0]) if setk else sx.loc(sx.fn),
             "after each solver step the containers receive the solver's current x", "")
     pen = ap.get("penalty", [])
-    okp = len(pen) == 1 and st and cfg.dominates(st[0], pen[0]) and "self.solver.penalty_after_last_step" in A.src(cfg.nodes[pen[0]].ast)
-    col.add(rule, f"{q}#penalty-of-the-accepted-point", bool(okp), cx.loc(pen[0]) if pen else cx.loc(cx.fn),
-            "the penalty logged is the solver's penalty after the step just taken", "")
+    okp = len(pen) == 1 and bool(st) and cfg.dominates(st[0], pen[0][0].nid) and pen[0][1] == ("attr", SOLVER, "penalty_after_last_step")
+    col.add(rule, f"{q}#penalty-of-the-accepted-point", okp, sx.loc(pen[0][0]) if pen else sx.loc(sx.fn),
+            "the penalty logged is the solver's penalty after the step just taken", S.show(pen[0][1]) if pen else "")
     kn = ap.get("knobs", [])
     okk = False
     if len(kn) == 1 and setk:
-        c = cx.calls_at(kn[0], lambda c: isinstance(c.func, ast.Attribute) and c.func.attr == "append")[0]
-        v = c.args[0]
-        if isinstance(v, ast.Name):
-            ds = [d for d in cx.defs(v.id, kn[0]) if d.kind == "assign"]
-            okk = len(ds) == 1 and "self._extract_knob_values()" in A.src(ds[0].value) and cfg.dominates(setk[0], ds[0].nid)
-    col.add(rule, f"{q}#knobs-read-after-they-were-set", okk, cx.loc(kn[0]) if kn else cx.loc(cx.fn),
+        ev, v = kn[0]
+        arg = ev.node.args[0]
+        nodes = _value_nodes(sx, arg, ev.nid)
+        okk = v == S.mcall(S.SELF, "_extract_knob_values") and all(cfg.dominates(setk[0][0].nid, n) for n in nodes)
+    col.add(rule, f"{q}#knobs-read-after-they-were-set", okk, sx.loc(kn[0][0]) if kn else sx.loc(sx.fn),
             "the knob vector logged is read from the containers after set_knobs_from_x", "")
-    # add_point_to_log: evaluation precedes the values read from it
-    cx = fnctx(repo, "Optimize", "add_point_to_log")
-    cfg = cx.cfg
-    ap = _append_nodes(cx)
-    ev = cx.call_nodes(lambda c: is_method_call(c, "eval", "self.solver"))
-    ok = len(ev) == 1 and all(cfg.dominates(ev[0], n) for k in ("targets", "tol_met", "penalty") for n in ap.get(k, []))
-    col.add(rule, "Optimize.add_point_to_log#evaluate-before-reading-results", ok, cx.loc(ev[0]) if ev else cx.loc(cx.fn),
+    # ---- add_point_to_log
+    sx = octx(repo, "Optimize", "add_point_to_log")
+    cfg = sx.cfg
+    ap = _appends(sx)
+    KN = S.mcall(S.SELF, "_extract_knob_values")
+    evs = sx.calls_some(S.mcall(SOLVER, "eval", S.V("x")))
+    ok = len(evs) == 1 and all(cfg.dominates(evs[0][0].nid, e.nid) for k in ("targets", "tol_met", "penalty") for e, v in ap.get(k, []))
+    col.add(rule, "Optimize.add_point_to_log#evaluate-before-reading-results", ok, sx.loc(evs[0][0]) if evs else sx.loc(sx.fn),
             "the point is evaluated before its target values, tolerance flags and penalty are logged", "")
-    if ev:
-        c = cx.calls_at(ev[0], lambda c: is_method_call(c, "eval", "self.solver"))[0]
-        x = cx.resolve(c.args[0], ev[0])
-        okx = isinstance(x, ast.Call) and A.src(x.func) == "self._err._knobs_to_x" and "self._extract_knob_values()" in A.src(cx.resolve(x.args[0], ev[0]))
-        col.add(rule, "Optimize.add_point_to_log#evaluates-current-knobs", okx, cx.loc(ev[0]),
-                "the point evaluated is the knob vector that is logged", A.src(x))
+    if evs:
+        ev, m = evs[0]
+        okx = m["x"] == S.mcall(ERR, "_knobs_to_x", KN) and len(ap.get("knobs", [])) == 1 and ap["knobs"][0][1] == KN
+        col.add(rule, "Optimize.add_point_to_log#evaluates-current-knobs", okx, sx.loc(ev),
+                "the point evaluated is the knob vector that is logged", S.show(m["x"]))
         pn = ap.get("penalty", [])
-        okp = len(pn) == 1
-        if okp:
-            pc = cx.calls_at(pn[0], lambda c: isinstance(c.func, ast.Attribute) and c.func.attr == "append")[0]
-            pv = pc.args[0]
-            tgt = cfg.nodes[ev[0]].ast
-            okp = isinstance(tgt, ast.Assign) and isinstance(tgt.targets[0], ast.Tuple) and A.dotted(tgt.targets[0].elts[1]) == A.dotted(pv)
-        col.add(rule, "Optimize.add_point_to_log#penalty-from-that-evaluation", okp, cx.loc(cx.fn), "the penalty logged is the one just computed", "")
-    cxe = fnctx(repo, "JacobianSolver", "eval")
-    ok = not A.has_fragments(cxe.fn, ["{L} = self.func({P1})", "np.sqrt(np.dot({L}, {L}))"])
-    col.add(rule, "JacobianSolver.eval#penalty-is-norm-of-residuals", ok, cxe.loc(cxe.fn), "the penalty is the Euclidean norm of the residual vector at x", "")
+        okp = len(pn) == 1 and pn[0][1] == ("item", ev.term, 1)
+        col.add(rule, "Optimize.add_point_to_log#penalty-from-that-evaluation", okp, sx.loc(sx.fn), "the penalty logged is the one just computed",
+                S.show(pn[0][1])[:80] if pn else "")
+    ex = octx(repo, "JacobianSolver", "eval")
+    xp = ex.P(0)
+    y = S.mcall(S.SELF, "func", xp)
+    rets = ex.of_kind("return")
+    norm = S.fcall(("attr", NP, "sqrt"), S.fcall(("attr", NP, "dot"), y, y))
+    ok = bool(rets) and all(a == ("tuple", (y, norm)) for r in rets for a in S.alts(r.value))
+    calls = [e.nid for e, m in ex.calls_some(y)]
+    ok = ok and bool(calls) and ex.cfg.must_pass(ex.cfg.ENTRY, ex.cfg.EXIT, calls)
+    col.add(rule, "JacobianSolver.eval#penalty-is-norm-of-residuals", ok, ex.loc(ex.fn),
+            "the penalty is the Euclidean norm of the residual vector obtained by calling the merit function at x, on every path "
+            "(never a remembered value: masks and targets may have changed without x moving)", S.show(rets[0].value)[:100] if rets else "")
 
 
 def check(col: Collector):
